@@ -118,6 +118,7 @@ Definition decontaminate (w : wstate) : wstate * option err :=
 Definition flush (w : wstate) : wstate * option err := (emit w [RF], None).
 Definition commit (w : wstate) : wstate * option err := (emit w [RB], None).
 Definition set_diti (w : wstate) (i : Z) : wstate * option err :=
+  if (i <? 0)%Z then (w, Some EReject) else
   match last_opt (w_recs w) with
   | None => (emit w [RS i], None)
   | Some r => if is_break_like r then (emit w [RS i], None) else (w, Some EInvalidOp)
@@ -162,6 +163,7 @@ Definition reagent_distribution (w : wstate) (a : rdargs) : wstate * option err 
   match check_position (rd_src_start a), check_position (rd_src_end a),
         check_position (rd_dst_start a), check_position (rd_dst_end a) with
   | Ok ss, Ok se, Ok ds, Ok de =>
+      if ((rd_diti_reuse a <? 0) || (rd_multi_disp a <? 0))%Z then (w, Some EReject) else
       let excl := match rd_exclude a with Some l => l | None => [] end in
       if existsb (fun x => negb ((ds <=? x) && (x <=? de))%Z) excl then (w, Some EReject) else
       match text_ok true (rd_src_label a), check_volume (rvol_pvol (rd_volume a)) (Some (w_max w)),
